@@ -11,7 +11,7 @@
    utf8.Valid (proto3 string fields)                utf8_valid
    keyset/validation.go Validate, validateKey       validate, validate_key
    keyset/handle.go keysetToEntries/newFromEntries  to_entries / new_from_entries
-   */*/protoserialization.go ParseKey + key.go      parse_key (13 key types)
+   */*/protoserialization.go ParseKey + key.go      parse_key (16 key types)
    primitive constructors (NewAEAD, NewMAC, ...)    prim_ok
    internal/ec BigIntBytesToFixedSizeBuffer         fixed_size (checked slice)
    crypto/ecdh NewPublicKey / NewPrivateKey         Section variables (stdlib)
@@ -335,6 +335,9 @@ Definition u_ecdsa_pub : bytes := Eval vm_compute in bytes_of_string url_ecdsa_p
 Definition u_ecdsa_priv : bytes := Eval vm_compute in bytes_of_string url_ecdsa_priv.
 Definition u_rsa_pkcs1_pub : bytes := Eval vm_compute in bytes_of_string url_rsa_pkcs1_pub.
 Definition u_rsa_pss_pub : bytes := Eval vm_compute in bytes_of_string url_rsa_pss_pub.
+Definition u_chacha : bytes := Eval vm_compute in bytes_of_string url_chacha.
+Definition u_xchacha : bytes := Eval vm_compute in bytes_of_string url_xchacha.
+Definition u_xaes_gcm : bytes := Eval vm_compute in bytes_of_string url_xaes_gcm.
 Definition u_unmodelled : list bytes := Eval vm_compute in map bytes_of_string unmodelled_urls.
 
 Definition url_is (kd : keydata) (u : bytes) : bool := beq (kd_url kd) u.
@@ -378,6 +381,9 @@ Inductive pkd :=
 | PEcdsaPriv (curve hash enc : N) (point : bytes) (d : bytes)
 | PRsaPkcs1Pub (bits e hash : N)
 | PRsaPssPub (bits e hash salt : N)
+| PChaCha (keylen : N)
+| PXChaCha (keylen : N)
+| PXAesGcm (keylen salt : N)
 | PFallback (private : bool).
 
 Definition okb (c : bool) (d : pkd) : outcome pkd := if c then Ok d else Err.
@@ -576,6 +582,25 @@ Definition parse_key (kd : keydata) (prefix idreq : N) : outcome pkd :=
          && variant_ok prefix idreq
          && (rsa_min_bits_parse <=? bits) && rsa_exponent_parse_ok e)
         (PRsaPssPub bits (exponent_value e) hash salt)
+  else if url_is kd u_chacha then
+    if negb (mat =? km_symmetric) then Err else
+    if negb (wire_ok sch_scalar v) then Err else
+    let kl := blen (get_len 2 fs) in
+    okb ((get_u32 1 fs =? 0) && variant_ok prefix idreq && (kl =? chacha_key_size)) (PChaCha kl)
+  else if url_is kd u_xchacha then
+    if negb (mat =? km_symmetric) then Err else
+    if negb (wire_ok sch_scalar v) then Err else
+    let kl := blen (get_len 3 fs) in
+    okb ((get_u32 1 fs =? 0) && variant_ok prefix idreq && (kl =? chacha_key_size)) (PXChaCha kl)
+  else if url_is kd u_xaes_gcm then
+    if negb (mat =? km_symmetric) then Err else
+    if negb (wire_ok sch_params2 v) then Err else
+    let kl := blen (get_len 3 fs) in let salt := get_u32 1 (get_sub 2 fs) in
+    (* variantFromProto of xaesgcm knows TINK and RAW only *)
+    okb ((get_u32 1 fs =? 0) && ((prefix =? pt_tink) || (prefix =? pt_raw))
+         && (negb (prefix =? pt_raw) || (idreq =? 0))
+         && (xaes_min_salt <=? salt) && (salt <=? xaes_max_salt) && (kl =? xaes_key_size))
+        (PXAesGcm kl salt)
   else
     (* no parser registered: NewFallbackProtoKey / NewFallbackProtoPrivateKey,
        which only need calculateOutputPrefix to know the prefix type *)
@@ -606,6 +631,8 @@ Definition prim_ok (d : pkd) : outcome bool :=
       bind (slice (Nat.div (length xy) 2) (length xy) xy) (fun _ => Ok true)))
   | PRsaPkcs1Pub bits e hash | PRsaPssPub bits e hash _ =>
       Ok ((rsa_min_bits_prim <=? bits) && (e =? rsa_exponent_prim) && rsa_hash_ok hash)
+  | PChaCha kl | PXChaCha kl => Ok (kl =? chacha_key_size)
+  | PXAesGcm kl _ => Ok (aes_16_32 kl)          (* NewAESCMACPRF -> aescmac.New *)
   | PFallback _ => Ok false
   end.
 
@@ -614,7 +641,8 @@ Definition modelled_url (kd : keydata) : bool :=
   || url_is kd u_aes_gcm_siv || url_is kd u_aes_ctr_hmac || url_is kd u_aes_siv
   || url_is kd u_hkdf_prf || url_is kd u_hmac_prf || url_is kd u_aes_cmac_prf
   || url_is kd u_ecdsa_pub || url_is kd u_ecdsa_priv
-  || url_is kd u_rsa_pkcs1_pub || url_is kd u_rsa_pss_pub.
+  || url_is kd u_rsa_pkcs1_pub || url_is kd u_rsa_pss_pub
+  || url_is kd u_chacha || url_is kd u_xchacha || url_is kd u_xaes_gcm.
 Definition unmodelled_url (kd : keydata) : bool :=
   existsb (fun u => url_is kd u) u_unmodelled.
 
@@ -689,7 +717,7 @@ Definition read_proto (ks : option keyset) : outcome handle :=
    variantFromProto maps LEGACY to VariantCrunchy. *)
 Definition out_prefix (e : entry) : N :=
   match ekey e with
-  | PAesGcm _ | PAesGcmSiv _ | PAesCtrHmac _ _ _ _ _ | PAesSiv _ =>
+  | PAesGcm _ | PAesGcmSiv _ | PAesCtrHmac _ _ _ _ _ | PAesSiv _ | PChaCha _ | PXChaCha _ =>
       if eprefix e =? pt_legacy then pt_crunchy else eprefix e
   | _ => eprefix e
   end.
